@@ -116,6 +116,9 @@ def run(eng, rep) -> None:
     rep.rule("R07.5", "%ignore = space, tab, newline, comments; ignored terminals are not greedy")
     rep.rule("R07.7", "optional numeric parameters (range bounds, ...) are compared with None, never tested by truth value")
     rep.rule("R07.6", "discriminators used on mixed children separate the child kinds")
+    rep.rule("R07.8", "a record built positionally from variables named like its own fields gets each in the position of the field of that name")
+    from .lints import swapped_record_args
+    swapped_record_args(eng, rep, "R07.8", ("fcp.parser", "fcp.specs"), "the values of the two fields are exchanged in every object built here, so the schema says something else than the source text")
     rep.assume("Earley ambiguity resolution (e.g. `param` with optional parentheses), numeric literal forms accepted by SIGNED_NUMBER, print->parse direction")
     r077(eng, rep)
     g = Grammar(prog)
